@@ -2,7 +2,7 @@
 From Coq Require Import Lia.
 From V.Model Require Import Base Templates Conv ConvSpec ConvLane Preconf PreconfSpec.
 From V.Gen Require Import GenSrc.
-From V.Proofs Require Import SrcObligationsGen ConvPrim PreconfProofs ConvRoundtrip JsonRoundtrip ConvCfg.
+From V.Proofs Require Import SrcObligationsGen ConvPrim PreconfProofs ConvRoundtrip JsonRoundtrip YamlRoundtrip ConvCfg.
 
 (* The JSON converter (preconf/json.py) is the plain Converter plus a context-free post-processing of its
    unstructured form ([jsonify]: bytes -> base85 text, abc.Set -> list); json.dumps accepts exactly
@@ -171,10 +171,55 @@ Proof.
 Qed.
 Local Close Scope N_scope.
 
+(* The pyyaml converter (preconf/pyyaml.py) inside the model.  [ywire] is dumps followed by the LIBRARY's loads on what the
+   converter hands to yaml.safe_dump: frozensets have become lists (the converter's collection override), tuples -- also the
+   tuples of the tuple strategy -- come back as lists (safe_dump writes them as sequences); sets, bytes and scalar mapping keys
+   of every kind survive.  For EVERY environment, nested type and value x of it ([rt_value], as in C01: no restriction on bytes
+   or on the key types beyond hashable leaf types), either validation mode on either side, either strategy: if the converter
+   unstructures x to u, then structuring [ywire u] returns x itself.  Assumed of Python: int(5) is 5 etc. *)
+Theorem C16_yaml_roundtrip :
+  forall (E : env) (dvU dvS tup ann : bool),
+    (forall p e, e_coerce E p (VAtom p e) = Ok (VAtom p e)) ->
+    (forall c cd, e_class E c = Some cd -> rt_class_ok (cfgJ dvS tup) c cd) ->
+    forall (n : nat) (t : ty) (x u : val),
+      rt_value E ann x t ->
+      unstructure E (cfgJ dvU tup) n t x = Ok u ->
+      structure E (cfgJ dvS tup) n t (ywire u) = Ok x.
+Proof.
+  intros E dvU dvS tup ann Hco Henv.
+  apply yaml_roundtrip; [reflexivity | reflexivity | reflexivity | intros _; exact src_tuple_passes_kw_only_by_keyword | reflexivity | reflexivity
+                         | apply mk_cfg_recheck | apply mk_cfg_kw_last | exact Hco | exact Henv].
+Qed.
+Print Assumptions C16_yaml_roundtrip.
+
+Theorem C16_yaml_roundtrip_total :
+  forall (E : env) (dvU dvS tup ann : bool) (M : nat),
+    (forall p e, e_coerce E p (VAtom p e) = Ok (VAtom p e)) ->
+    (forall c cd, e_class E c = Some cd -> rt_class_ok (cfgJ dvS tup) c cd) ->
+    (forall c cd nm ft, e_class E c = Some cd -> assoc (cd_types cd) nm = Some ft -> maxw ft <= M) -> 2 <= M ->
+    forall (t : ty) (x : val),
+      rt_value E ann x t -> maxw t <= M ->
+      exists n u, unstructure E (cfgJ dvU tup) n t x = Ok u /\ structure E (cfgJ dvS tup) n t (ywire u) = Ok x.
+Proof.
+  intros E dvU dvS tup ann M Hco Henv HM HM2.
+  apply yaml_roundtrip_total; [reflexivity | reflexivity | reflexivity | intros _; exact src_tuple_passes_kw_only_by_keyword | reflexivity | reflexivity
+                               | apply mk_cfg_recheck | apply mk_cfg_kw_last | exact Hco | exact Henv | exact HM | exact HM2].
+Qed.
+Print Assumptions C16_yaml_roundtrip_total.
+
+Local Open Scope N_scope.
+Example C16_yaml_nonvacuous :
+  let u := VDict [(VAtom PStr 1, VFrozenSet [VAtom PBytes 7; VAtom PBytes 8]); (VAtom PStr 2, VDict [(VAtom PBool 3, VTuple [VAtom PInt 4; VSet [VNone]])])] in
+  yamlify u = VDict [(VAtom PStr 1, VList [VAtom PBytes 7; VAtom PBytes 8]); (VAtom PStr 2, VDict [(VAtom PBool 3, VTuple [VAtom PInt 4; VSet [VNone]])])]
+  /\ ywire u = VDict [(VAtom PStr 1, VList [VAtom PBytes 7; VAtom PBytes 8]); (VAtom PStr 2, VDict [(VAtom PBool 3, VList [VAtom PInt 4; VSet [VNone]])])]
+  /\ yamlable u = false /\ yamlable (yamlify u) = true.
+Proof. vm_compute. repeat split. Qed.
+Local Close Scope N_scope.
+
 (* STILL PARTIAL.  The serialisation library itself is data: [jsonable] / [json_rt] are its model, compared with the real
    json.dumps / json.loads on every case of the PRE lane, like [jsonify] with the real converter's unstructured form and
    the model's structure side (the plain Converter's structure with the bytes hook's table) with the real loads.  datetime /
-   date, Counter, literals with enums, the union passthrough, pyyaml and msgspec: PRE lane only (round trip + user hooks). *)
+   date, Counter, literals with enums, the union passthrough, typed NamedTuples in pyyaml, and msgspec: PRE lane only (round trip + user hooks). *)
 
 Local Open Scope N_scope.
 Example C16_nonvacuous :
